@@ -7,8 +7,10 @@ package main
 import (
 	"encoding/base64"
 	"fmt"
+	"github.com/alicebob/miniredis/v2/server"
 	"github.com/oauth2-proxy/oauth2-proxy/v7/pkg/apis/options"
 	"net/http"
+	"net/http/httptest"
 	"net/url"
 	"os"
 	"path/filepath"
@@ -791,6 +793,68 @@ func init() {
 							er.close()
 						}
 					}
+					// a sign-out while a READ of the same session — made for another request, answered by Redis before the delete — is still
+					// on its way back to the proxy: a replay that starts AFTER the sign-out was answered is not authenticated from that read
+					if redis && path == "" && dom == nil {
+						if er, err := newEnv(c, proxyCfg{Redis: true, InjectRequest: defaultInject()}); err == nil {
+							b := newBrowser()
+							if lr := er.login(b, u, "/app/home"); lr.OK {
+								ck := b.cookieHeader()
+								slowStarted, slowDone := make(chan struct{}), make(chan struct{})
+								var armed atomic.Bool
+								er.redisOnCmd.Store("GET", func(p *server.Peer, args []string) bool {
+									if len(args) == 0 || !armed.CompareAndSwap(true, false) {
+										return false
+									}
+									val, gerr := er.mr.Get(args[0]) // (what Redis holds at this moment: the delete has not run yet)
+									close(slowStarted)
+									time.Sleep(900 * time.Millisecond)
+									if gerr != nil {
+										p.WriteNull()
+									} else {
+										p.WriteBulk(val)
+									}
+									return true
+								})
+								var once sync.Once
+								er.redisOnCmd.Store("DEL", func(p *server.Peer, args []string) bool {
+									once.Do(func() {
+										armed.Store(true)
+										go func() {
+											defer close(slowDone)
+											if req, err := er.buildRequest(reqSpec{Target: "/app/in-flight", Cookie: ck}); err == nil {
+												er.proxy.ServeHTTP(httptest.NewRecorder(), req)
+											}
+										}()
+										select {
+										case <-slowStarted:
+										case <-time.After(3 * time.Second):
+										}
+									})
+									return false
+								})
+								so := er.do(reqSpec{Target: er.opts.ProxyPrefix + "/sign_out", Cookie: ck})
+								r2 := er.do(reqSpec{Target: "/app/replay-after-signout", Cookie: ck})
+								select {
+								case <-slowDone:
+								case <-time.After(5 * time.Second):
+								}
+								er.redisOnCmd.Delete("GET")
+								er.redisOnCmd.Delete("DEL")
+								replayed := false
+								for _, h := range r2.Hits {
+									replayed = replayed || strings.Contains(h.RequestURI, "replay-after-signout")
+								}
+								c.casen("c11|signout-vs-read-in-flight", fmt.Sprint(so.Status))
+								c.count("signout:vs-read-in-flight")
+								if so.Status == 302 && replayed {
+									c.violation("C11", "a replay of the pre-sign-out cookie that STARTED after the sign-out was answered (302, stored session removed) was authenticated: it was answered from a read of the session that another request had in flight since before the delete",
+										map[string]interface{}{"signout_status": so.Status, "replay_status": r2.Status, "in_flight_read_reply_delay": "900ms"})
+								}
+							}
+							er.close()
+						}
+					}
 					// a sign-out (other tab) that lands between a stale request's first load and its reload under the
 					// refresh lock: the in-flight request must not bring the session back
 					if redis && path == "" && dom == nil {
@@ -963,7 +1027,7 @@ func init() {
 			}
 		}
 		c.close([]string{"serve:signout", "signout:replay", "signout:del-fault", "signout:parts-1", "signout:refresh-at-signout", "signout:during-refresh", "signout:outage", "signout:foreign-host", "signout:unvalidatable-ticket",
-			"signout:redis-stall", "signout:form-logins", "signout:cookie-header-lines", "signout:behind-proxy", "signout:del-fault-backend-logout", "signout:vs-slow-refresh"})
+			"signout:redis-stall", "signout:form-logins", "signout:cookie-header-lines", "signout:behind-proxy", "signout:del-fault-backend-logout", "signout:vs-slow-refresh", "signout:vs-read-in-flight"})
 	})
 
 	registerSuite("cookieattrs", func(c *suiteCtx) {
